@@ -1,10 +1,6 @@
 // replay for property C10, harness validation::common::verif_kani_proofs::c10_time_windows_rule_n3 (crate vrp-pragmatic, proof module common)
 // failed: assertion failed: accepted == expected @ common_proofs.rs:50
 // run: /verif/check --replay /verif/replays/C10/c10_time_windows_rule_n3.rs
-/// Test generated for harness `validation::common::verif_kani_proofs::c10_time_windows_rule_n3` 
-///
-/// Check for `cover`: "accepted"
-
 #[test]
 fn kani_concrete_playback_c10_time_windows_rule_n3_16848828527317719651() {
     let concrete_vals: Vec<Vec<u8>> = vec![
@@ -32,10 +28,6 @@ fn kani_concrete_playback_c10_time_windows_rule_n3_16848828527317719651() {
     kani::concrete_playback_run(concrete_vals, c10_time_windows_rule_n3);
 }
 
-/// Test generated for harness `validation::common::verif_kani_proofs::c10_time_windows_rule_n3` 
-///
-/// Check for `cover`: "rejected-by-rule"
-
 #[test]
 fn kani_concrete_playback_c10_time_windows_rule_n3_678035333410654009() {
     let concrete_vals: Vec<Vec<u8>> = vec![
@@ -62,10 +54,6 @@ fn kani_concrete_playback_c10_time_windows_rule_n3_678035333410654009() {
     ];
     kani::concrete_playback_run(concrete_vals, c10_time_windows_rule_n3);
 }
-
-/// Test generated for harness `validation::common::verif_kani_proofs::c10_time_windows_rule_n3` 
-///
-/// Check for `assertion`: "assertion failed: accepted == expected"
 
 #[test]
 fn kani_concrete_playback_c10_time_windows_rule_n3_4725838397568498151() {
